@@ -885,6 +885,10 @@ func c14Gen(r *vh.Rng, maxOps int) *c14Scn {
 			}
 			return u, p
 		}
+		if len(accts) > 0 && x < 93 { // a spelling that resolves, whether or not the account exists right now
+			k := accts[r.Intn(len(accts))]
+			return reach[k][r.Intn(len(reach[k]))], pw(false)
+		}
 		return anyName(), pw(false)
 	}
 	n := 1 + r.Intn(maxOps)
@@ -1053,6 +1057,18 @@ func c14Fixed() []*c14Scn {
 			{kind: 'c', u: "acct1", p: "pw", scheme: "s"},
 			{kind: 'p', u: "alice", p: "pw"},
 			{kind: 'l', u: "alice", p: "pw"},
+		}},
+		// the documented configuration `auth_map email_localpart`: bob@example.org uses the credentials of bob
+		{login: true, anorm: "auto", mapSpec: "localpart", ops: []c14Op{
+			{kind: 'c', u: "bob", p: "pw", scheme: "s"},
+			{kind: 'p', u: "bob@example.org", p: "pw"},
+			{kind: 'l', u: "bob@example.org", p: "pw"},
+		}},
+		// no map at all: the identity of a non-normalised (NFD) spelling
+		{login: true, anorm: "auto", mapSpec: "nil", ops: []c14Op{
+			{kind: 'c', u: "ünï", p: "Password", scheme: "b"},
+			{kind: 'l', u: "u\u0308ni\u0308", p: "Password"},
+			{kind: 'p', u: "u\u0308ni\u0308", p: "Password"},
 		}},
 		{login: true, anorm: "nil", mapSpec: "static," + vh.HexRunes("alice") + "=" + vh.HexRunes("bob") + "," + vh.HexRunes("bob") + "=" + vh.HexRunes("alice"), ops: []c14Op{
 			{kind: 'c', u: "alice", p: "pa", scheme: "s"},
